@@ -123,6 +123,10 @@ fn read_frame(s: &mut TcpStream, ms: u64) -> Result<Vec<u8>, &'static str> {
 fn wanted(idx: u16) -> ffi::WriteResult {
     if idx == 0 || idx == 100 {
         ffi::WriteResult { success: true, exception: 255, raw_exception: 0 }
+    } else if (30000..=30255).contains(&idx) {
+        // accepted, with the other members left at whatever the application had in them
+        let k = (idx - 30000) as c_int;
+        ffi::WriteResult { success: true, exception: k, raw_exception: k as u8 }
     } else if idx < 256 {
         let named = matches!(idx, 1 | 2 | 3 | 4 | 5 | 6 | 8 | 10 | 11);
         ffi::WriteResult {
